@@ -696,6 +696,15 @@ def xstep (tc : TCfg) (top : Top) (xop : XOp) : Out (Top × String) := do
   let (top, r) ← xstepCore tc top xop
   pure (top.swSync tc, r)
 
+/-- Is anything still allocated, in this layer or below?  (The toplevel instance or one of its watches, a further
+    terminal, an entry of the SIGWINCH observer list or the handler installed for it.) -/
+def Top.anythingLeft (top : Top) : Bool :=
+  Life.anythingLeft top.st ||
+  (match top.inst with
+   | some i => !i.freed || !i.laters.isEmpty || !i.timers.isEmpty
+   | none => false) ||
+  top.xterms.any (fun x => !x.freed) || top.swFirst.isSome || top.swHandler
+
 /-- A history at this layer: the operations one after the other; the first failure ends it. -/
 def xrunOps (tc : TCfg) : Top → List XOp → Out Top
   | top, [] => .ok top
